@@ -608,6 +608,50 @@ func (in *inliner) threadable(as *ast.AssignStmt, ifs *ast.IfStmt) *threadInfo {
 	if hasLabel {
 		return nil
 	}
+	// an unlabeled break / continue of the if statement that belongs to a statement AROUND it would bind to something
+	// else once the if statement sits inside the inlined body (the body is wrapped in a switch, and may have loops)
+	freeBreak, freeContinue := false, false
+	var scan func(n ast.Node, inLoop, inBreakable bool)
+	scan = func(n ast.Node, inLoop, inBreakable bool) {
+		ast.Inspect(n, func(x ast.Node) bool {
+			if x == nil || x == n {
+				return true
+			}
+			switch y := x.(type) {
+			case *ast.FuncLit:
+				return false
+			case *ast.ForStmt:
+				scan(y.Body, true, true)
+				return false
+			case *ast.RangeStmt:
+				scan(y.Body, true, true)
+				return false
+			case *ast.SwitchStmt:
+				scan(y.Body, inLoop, true)
+				return false
+			case *ast.TypeSwitchStmt:
+				scan(y.Body, inLoop, true)
+				return false
+			case *ast.SelectStmt:
+				scan(y.Body, inLoop, true)
+				return false
+			case *ast.BranchStmt:
+				if y.Label == nil {
+					if y.Tok == token.BREAK && !inBreakable {
+						freeBreak = true
+					}
+					if y.Tok == token.CONTINUE && !inLoop {
+						freeContinue = true
+					}
+				}
+			}
+			return true
+		})
+	}
+	scan(ifs, false, false)
+	if freeBreak {
+		return nil
+	}
 	var name string
 	whenSet := true
 	switch c := ast.Unparen(ifs.Cond).(type) {
@@ -629,7 +673,7 @@ func (in *inliner) threadable(as *ast.AssignStmt, ifs *ast.IfStmt) *threadInfo {
 	}
 	for i, l := range as.Lhs {
 		if id, ok := l.(*ast.Ident); ok && id.Name == name {
-			return &threadInfo{ifs: ifs, sink: i, whenSet: whenSet}
+			return &threadInfo{ifs: ifs, sink: i, whenSet: whenSet, freeContinue: freeContinue}
 		}
 	}
 	return nil
@@ -895,11 +939,6 @@ func (in *inliner) sinkAssign(x *ast.AssignStmt, call *ast.CallExpr, stack []*ty
 	})
 	if hasDefer {
 		return nil
-	}
-	for i := 0; i < sig.Results().Len(); i++ {
-		if rn := sig.Results().At(i).Name(); rn != "" && rn != "_" {
-			return nil
-		}
 	}
 	var pre []ast.Stmt
 	for i, l := range x.Lhs {
@@ -1214,6 +1253,23 @@ func (in *inliner) inlineCallMode(call *ast.CallExpr, stack []*types.Func, sites
 	in.pendingThread = nil
 	if sinks == nil {
 		thread = nil
+	}
+	if thread != nil && thread.freeContinue {
+		if _, fdc := in.calleeOfCall(call); fdc != nil {
+			hasLoop := false
+			ast.Inspect(fdc.Body, func(n ast.Node) bool {
+				switch n.(type) {
+				case *ast.FuncLit:
+					return false
+				case *ast.ForStmt, *ast.RangeStmt:
+					hasLoop = true
+				}
+				return !hasLoop
+			})
+			if hasLoop {
+				return nil // fall back to the unthreaded form
+			}
+		}
 	}
 	fn, fd := in.calleeOfCall(call)
 	if fn == nil || onStack(stack, fn) {
@@ -1571,7 +1627,10 @@ func (in *inliner) inlineCallMode(call *ast.CallExpr, stack []*types.Func, sites
 		}
 		resNames = append(resNames, name)
 		if sinks != nil {
-			continue
+			if rn := res.At(i).Name(); rn == "" || rn == "_" {
+				continue
+			}
+			// a named result is a variable of the body: it is declared, and handed to the sink at every return
 		}
 		if tail {
 			if rn := res.At(i).Name(); rn == "" || rn == "_" {
@@ -1763,11 +1822,6 @@ func (in *inliner) inlineCallMode(call *ast.CallExpr, stack []*types.Func, sites
 		if len(defers) > 0 || len(sinks) != sig.Results().Len() {
 			return nil
 		}
-		for i := 0; i < sig.Results().Len(); i++ {
-			if rn := sig.Results().At(i).Name(); rn != "" && rn != "_" {
-				return nil
-			}
-		}
 	}
 	var deferDecls []ast.Stmt // go to the top of the inlined body
 	deferN := 0
@@ -1870,6 +1924,14 @@ func (in *inliner) inlineCallMode(call *ast.CallExpr, stack []*types.Func, sites
 			}
 			usedLabel = true
 			var out []ast.Stmt
+			if len(x.Results) == 0 && sinks != nil && len(resNames) > 0 {
+				// bare return of named results: hand them to the sinks
+				var rs []ast.Expr
+				for _, n := range resNames {
+					rs = append(rs, ast.NewIdent(n))
+				}
+				x.Results = rs
+			}
 			if len(x.Results) > 0 {
 				var lhs []ast.Expr
 				for i, n := range resNames {
